@@ -11,7 +11,7 @@ import primaite.simulator.network.hardware.nodes.network.firewall  # noqa: F401
 import primaite.simulator.network.hardware.nodes.network.wireless_router  # noqa: F401
 
 from .. import c18_monitor as mon
-from ..harness import CaseResult, Ctx, hyp_run
+from ..harness import CaseResult, Ctx, enum_run, hyp_run
 from ..simutil import base_cfg, computer, exc_sig, link, new_game, switch
 
 ID = "C18"
@@ -24,9 +24,13 @@ RULE = (
     "capacity override from the same set plus 0.0 x software sizing (file sizes, DoS sessions) x op list. Ops run "
     "between pre_timestep and apply_timestep exactly like several agents' actions in one step: ping (reply nested in the "
     "request's delivery), nmap ping scan of present and absent addresses (ARP broadcasts flooded through switches), FTP "
-    "send, database-client execute, dos-bot execute, NIC disable/enable, node shutdown/startup, tick. Non-trivial = a "
-    "case with a tick in which >=1 frame was refused for capacity or a tight link/channel reached >=50 % of its "
-    "bandwidth; distinct by case hash."
+    "send, database-client execute, dos-bot execute, NIC disable/enable, node shutdown/startup (hosts, switches, routers), "
+    "tick. 0-2 nodes (host, switch or router) are OFF when their links are created: declared operating_state OFF in the "
+    "scenario (build=config), or the links are cabled with Network.connect() after construction while the node is still "
+    "off and some of them powered on afterwards (build=api: connect before power_on). A fixed family enumerates every "
+    "single node of the three wired topologies OFF at link creation x both builds with pings/scans aimed at it. "
+    "Non-trivial = a case with a tick in which >=1 frame was refused for capacity, a tight link/channel reached >=50 % of "
+    "its bandwidth, or a frame was offered to a link one of whose end interfaces was disabled; distinct by case hash."
 )
 ASSUMPTIONS = [
     "bandwidths and channel capacities are taken from the scenario dict, not from the simulator objects",
@@ -139,9 +143,24 @@ def topology(case: Dict) -> Tuple[Dict, List[Tuple[str, int, str, int]], List[st
         net_extra = {}
     else:
         raise ValueError(topo)
+    off = set(case.get("off") or [])
+    for nd in nodes:
+        if nd["hostname"] in off:
+            nd["operating_state"] = "OFF"  # the loader leaves such a node switched off: its interfaces cannot be enabled
     cfg = base_cfg(nodes, [link(*l) for l in links], network_extra=net_extra)
     hosts = sorted(ips)
     return cfg, links, hosts, ips
+
+
+def net_nodes(topo: str, n_hosts: int = 3) -> List[str]:
+    """Every node name of a topology (candidates for being OFF when the links are created)."""
+    if topo == "lan":
+        return ["sw0"] + [f"h{i}" for i in range(4 if n_hosts >= 4 else 3)]
+    if topo == "lan2":
+        return ["sw0", "sw1", "h0", "h1", "h2", "h3"]
+    if topo == "routed":
+        return ["sw0", "sw1", "r0", "h0", "h1", "h2", "h3"]
+    return ["h0", "h1", "r1"]
 
 
 _UNITS_CACHE: Dict[str, Dict[str, float]] = {}
@@ -265,6 +284,8 @@ def form(op: List, hosts: List[str], ips: Dict[str, str]) -> List:
                                {"node_name": h(op[1]), "nic_num": 1})
     if k == "power":
         return am.form_request("node-shutdown" if op[2] == "shutdown" else "node-startup", {"node_name": h(op[1])})
+    if k == "npower":  # same actions aimed at a switch / router by name
+        return am.form_request("node-shutdown" if op[2] == "shutdown" else "node-startup", {"node_name": op[1]})
     raise ValueError(op)
 
 
@@ -298,12 +319,28 @@ def run_case(case: Dict) -> CaseResult:
     import contextlib
     import io
 
+    api_build = case.get("build") == "api"
+    link_dicts = cfg["simulation"]["network"]["links"]
+    if api_build:
+        cfg["simulation"]["network"]["links"] = []
     with contextlib.redirect_stdout(io.StringIO()):  # set_frequency_max_capacity_mbps prints
         game = new_game(cfg)
     sim = game.simulation
     net = sim.network
+    if api_build:
+        # API order: cable with Network.connect() while the OFF nodes are still off, power some of them on afterwards
+        for ld in link_dicts:
+            na = net.get_node_by_hostname(ld["endpoint_a_hostname"])
+            nb = net.get_node_by_hostname(ld["endpoint_b_hostname"])
+            kw = {"bandwidth": ld["bandwidth"]} if "bandwidth" in ld else {}
+            net.connect(endpoint_a=na.network_interface[ld["endpoint_a_port"]],
+                        endpoint_b=nb.network_interface[ld["endpoint_b_port"]], **kw)
+        for name in case.get("late_on") or []:
+            if name in (case.get("off") or []):
+                net.get_node_by_hostname(name).power_on()
     m = mon.Monitor(res.violate, _accounts(game, links, bws, units), air_caps,
                     airspace=net.airspace if case["topo"] == "wifi" else None)
+    m.never_enabled_links = sum(1 for a in m.links.values() if not (a.link.endpoint_a.enabled and a.link.endpoint_b.enabled))
     mon.activate(m)
     n_ticks = 0
     try:
@@ -339,7 +376,7 @@ def run_case(case: Dict) -> CaseResult:
         mon.activate(None)
 
     # distribution / non-triviality
-    res.nontrivial = m.nontrivial_ticks > 0
+    res.nontrivial = m.nontrivial_ticks > 0 or m.down_attempts > 0
     res.label(f"topo:{case['topo']}")
     if tight_any:
         res.label("has_tight_link")
@@ -357,6 +394,14 @@ def run_case(case: Dict) -> CaseResult:
         res.label("has_wireless_half_capacity")
     if m.reset_seen:
         res.label("has_midtick_load_reset")
+    if case.get("off"):
+        res.label("has_node_off_at_link_creation", f"build:{case.get('build', 'config')}")
+        for nm in case["off"]:
+            res.label("off:" + ("host" if nm.startswith("h") else "switch" if nm.startswith("sw") else "router"))
+    if m.never_enabled_links:
+        res.label("has_link_with_never_enabled_end")
+    if m.down_attempts:
+        res.label("has_frame_offered_to_down_link")
     if res.nontrivial:
         res.label("nontrivial")
     kinds = {o[0] for o in case["ops"]}
@@ -412,6 +457,9 @@ def op_strategy(topo: str):
         st.tuples(st.just("nic"), hi, st.sampled_from(["disable", "enable", "enable"])),
         st.tuples(st.just("power"), hi, st.sampled_from(["shutdown", "startup", "startup"])),
     ]
+    infra = [n for n in net_nodes(topo, 4) if not n.startswith("h")]
+    if infra:
+        control.append(st.tuples(st.just("npower"), st.sampled_from(infra), st.sampled_from(["shutdown", "startup", "startup"])))
     ops = traffic * 3 + control + [st.just(("tick",))] * 5
     return st.one_of(*ops).map(lambda t: [list(x) if isinstance(x, (list, tuple)) else x for x in t])
 
@@ -431,11 +479,37 @@ def case_strategy(draw, max_ops: int = 14, topos=("lan", "lan", "lan2", "routed"
     case["dos_sessions"] = draw(st.sampled_from([2, 5, 20]))
     case["dos_repeat"] = draw(st.booleans())
     case["durations"] = draw(st.sampled_from([[0, 0], [0, 0], [2, 2], [0, 2]]))
+    if draw(st.sampled_from([False] * 7 + [True] * 3)):  # ~30 %: some nodes are OFF when their links are created
+        cand = net_nodes(topo, case.get("n_hosts", 3))
+        cand = cand + [n for n in cand if n.startswith("h")]  # hosts twice as likely as switches / routers
+        case["off"] = sorted(set(draw(st.lists(st.sampled_from(cand), min_size=1, max_size=2))))
+        case["build"] = draw(st.sampled_from(["config", "api"]))
+        if case["build"] == "api":
+            case["late_on"] = [n for n in case["off"] if draw(st.booleans())]
     case["ops"] = draw(st.lists(op_strategy(topo), min_size=1, max_size=max_ops))
     return case
 
 
+def off_family():
+    """Every single node of the wired topologies OFF at link creation x both builds, traffic aimed at and past it."""
+    for topo in ("lan", "lan2", "routed"):
+        for name in net_nodes(topo, 4):
+            for build in ("config", "api"):
+                for late in ([], [name]) if build == "api" else ([],):
+                    ops = [["ping", 0, 1, 1], ["ping", 1, 2, 1], ["ping", 2, 3, 1], ["ping", 3, 0, 1],
+                           ["scan", 0, [1, 2, 3, -1]], ["tick"], ["ping", 1, 0, 2], ["scan", 3, [0, 1, 2]], ["tick"],
+                           ["npower" if not name.startswith("h") else "power",
+                            name if not name.startswith("h") else int(name[1:]), "startup"],
+                           ["tick"], ["ping", 0, 3, 1], ["ping", 2, 1, 1]]
+                    yield {"topo": topo, "n_hosts": 4, "bw": [], "off": [name], "build": build, "late_on": late,
+                           "durations": [0, 0], "ops": ops}
+
+
 def worker(ctx: Ctx):
     mon.install()
+    enum_run(ctx, off_family(), run_case)
+    ctx.extra["exhaustive"] = True
+    ctx.extra["exhaustive_domain"] = ("every single node of lan(4)/lan2/routed OFF at link creation x build config|api "
+                                      "(api: left off | powered on after cabling) with a fixed ping/scan/startup script")
     n = 200 if ctx.tier == "quick" else 3000
     hyp_run(ctx, case_strategy(14 if ctx.tier == "quick" else 24), run_case, n)
